@@ -17,6 +17,7 @@ import (
 	"testing"
 
 	"github.com/daeuniverse/dae/common/consts"
+	"github.com/daeuniverse/dae/component/routing"
 	"github.com/daeuniverse/dae/config"
 	"github.com/daeuniverse/dae/pkg/config_parser"
 	"github.com/sirupsen/logrus"
@@ -38,6 +39,7 @@ type c01Packet struct {
 
 type c01Case struct {
 	Text    string           `json:"text"`
+	Full    bool             `json:"full"` // production path: NewNormalizedProgram with the four rule optimizers
 	Groups  map[string]uint8 `json:"groups"`
 	Regex   []string         `json:"regex"`
 	Packets []c01Packet      `json:"packets"`
@@ -142,7 +144,23 @@ func c01Run(cs c01Case) (res c01Result) {
 		f := c01Fn(fb)
 		res.Fallback = &f
 	}
-	builder, err := NewRoutingMatcherBuilder(log, conf.Routing.Rules, cs.Groups, nil, conf.Routing.Fallback)
+	var builder *RoutingMatcherBuilder
+	if cs.Full {
+		// as NewControlPlane does: optimizers, then the builder from the normalized program
+		program, perr := routing.NewNormalizedProgram(conf.Routing.Rules, conf.Routing.Fallback,
+			&routing.AliasOptimizer{},
+			&routing.DatReaderOptimizer{Logger: log},
+			&routing.MergeAndSortRulesOptimizer{},
+			&routing.DeduplicateParamsOptimizer{},
+		)
+		if perr != nil {
+			res.Stage, res.Err = "build", "optimizers: "+perr.Error()
+			return res
+		}
+		builder, err = NewRoutingMatcherBuilderFromProgram(log, program, cs.Groups, nil)
+	} else {
+		builder, err = NewRoutingMatcherBuilder(log, conf.Routing.Rules, cs.Groups, nil, conf.Routing.Fallback)
+	}
 	if err != nil {
 		res.Stage, res.Err = "build", err.Error()
 		return res
